@@ -111,6 +111,33 @@ def contents(kind, st):
     return render_vec(s[b:e])
 
 
+READS = {"vec": {"idx", "front", "back", "size", "empty"},
+         "str": {"idx", "size", "empty", "substr", "find", "rfind", "find_first_of", "find_last_of", "find_first_not_of", "find_last_not_of"},
+         "map": {"at", "count", "size", "empty"}}
+
+
+def build_const(kind, st):
+    """the same state as a const container: a reference bound to a literal"""
+    if kind == "vec":
+        if 0 in st or not st:
+            return None
+        return f"var &c = [{', '.join(map(str, st))}]"
+    if kind == "str":
+        return f"var &c = {q(st)}"
+    if kind == "map":
+        if not st or any(v == 0 for _, v in st):
+            return None
+        return "var &c = [" + ", ".join(f'"{k}":{v}' for k, v in st) + "]"
+    return None
+
+
+def const_variant(t):
+    """expected behaviour of the transition on a const container: reads as in the model, every mutator raises"""
+    if t["op"]["n"] in READS.get(t["kind"], ()):
+        return dict(t, const=1)
+    return dict(t, const=1, res={"t": "throw", "i": 0, "q": []}, st2=t["st"])
+
+
 def key_of(kind, st, op):
     return f"{kind}:{st}:{op['n']}({op['a']},{op['b']},{''.join(op['s'])})".replace(" ", "")
 
@@ -139,6 +166,14 @@ def run(ck, tier, seed):
         meta[cid] = [t]
         cases.append({"id": cid, "to": 30, "steps": [{"op": "eval", "src": build(kind, t["st"])}, {"op": "eval", "src": op_src(kind, t["op"])},
                                                       {"op": "eval", "src": DUMP[kind]}]})
+    for i, t in enumerate(trans):
+        b = build_const(t["kind"], t["st"])
+        if b is None:
+            continue
+        cid = f"c{i}"
+        meta[cid] = [const_variant(t)]
+        cases.append({"id": cid, "to": 30, "steps": [{"op": "eval", "src": b}, {"op": "eval", "src": op_src(t["kind"], t["op"])},
+                                                      {"op": "eval", "src": DUMP[t["kind"]]}]})
     # operation sequences: walks through the model's transition table from the empty container
     rnd = random.Random(seed)
     nseq = 300 if quick else 4000
@@ -171,7 +206,7 @@ def run(ck, tier, seed):
         if "died" in o:
             # find which transition: replay is cheap, name the first operation of the path conservatively
             t = path[0] if len(path) == 1 else None
-            ck.violation("died:" + (key_of(t["kind"], t["st"], t["op"]) if t else cid),
+            ck.violation("died:" + (("const:" if t.get("const") else "") + key_of(t["kind"], t["st"], t["op"]) if t else cid),
                          f"process died ({o['died']}) on container operation" + (f" {op_src(t['kind'], t['op'])} from state {t['st']}" if t else "s of a sequence"),
                          {"case": cid, "steps": [s["src"] for s in next(c for c in cases if c["id"] == cid)["steps"]]})
             continue
@@ -192,7 +227,8 @@ def run(ck, tier, seed):
             if bad is None and (d["oc"] != "val" or d["v"] != contents(t["kind"], t["st2"])):
                 bad = f"contents afterwards {d.get('v', d['oc'])}, expected {contents(t['kind'], t['st2'])}"
             if bad:
-                ck.violation(key_of(t["kind"], t["st"], t["op"]), f"{op_src(t['kind'], t['op'])} on {contents(t['kind'], t['st'])}: {bad}",
+                ck.violation(("const:" if t.get("const") else "") + key_of(t["kind"], t["st"], t["op"]),
+                             f"{op_src(t['kind'], t['op'])} on {'const ' if t.get('const') else ''}{contents(t['kind'], t['st'])}: {bad}",
                              {"case": cid, "transition": t, "observed": [r, d]})
                 break
     ck.extra["transitions_replayed"] = len(trans)
